@@ -325,7 +325,8 @@ class ModuleFinder:
             if not skip.isdisjoint(rel_subpath.parents):
                 logger.debug("Skip %s, another module took precedence", subpath)
                 continue
-            py_file = rel_subpath.suffix == ".py"
+            # Sources and stubs are named after their full stem (`name.old.pyi` is not the stubs of `name`).
+            py_file = rel_subpath.suffix in {".py", ".pyi"}
             stem = rel_subpath.stem
             if not py_file:
                 # `.py[cod]` and `.so` files look like `name.cpython-38-x86_64-linux-gnu.ext`.
